@@ -78,6 +78,8 @@ def run_leaf_groups(chk, cid_prefix, ctx, leaves, groups, cfgname):
             g_scale(exs['scale'], ctx, lf)
         if 'guard' in groups:
             g_guard(exs['guard'], ctx, lf)
+        if 'iluguard' in groups:
+            g_guard_ilu(exs['iluguard'], ctx, lf)
         if 'phases' in groups:
             g_phases(exs['phases'], ctx, lf)
         if 'cond' in groups:
@@ -207,6 +209,26 @@ def g_guard(ex, c, lf):
         fac = lf.calls(c.fac)
         bw = [e for e in lf.stores() if e['base'] in (c.Bnz, c.Xnz)]
         ex.check(lf, not bw, 'rhs-and-solution-untouched', sel, 'info != 0: B and X must be returned untouched, but they are written', bw[0]['line'] if bw else None)
+
+
+def g_guard_ilu(ex, c, lf):
+    """?gsisx: info > n after ?gsitrf is a memory failure (L, U do not exist): nothing may touch them and the driver returns; 0 < info <= n only counts
+    replaced zero pivots, the factors are a usable preconditioner: the solve must still run, whatever PivotGrowth is"""
+    v, p = lf.val, c.p
+    if not c.nofact(lf) or 'info' not in v or v.get('lwork') == -1:
+        return
+    sel = ['info', 'PivotGrowth']
+    users = lf.calls(lambda n: n in (p + 'gstrs', p + 'gscon', p + 'PivotGrowth', 'ilu_' + p + 'QuerySpace', p + 'QuerySpace'))
+    if v['info'] == 15:
+        ex.check(lf, not users, 'nothing-uses-the-factors-after-a-memory-failure', sel,
+                 'info > n after %s: L and U were not created; %s must not run' % (c.fac, sorted({e['name'] for e in users})), users[0]['line'] if users else None)
+        bw = [e for e in lf.stores() if e['base'] in (c.Bnz, c.Xnz)]
+        ex.check(lf, not bw, 'rhs-and-solution-untouched', sel, 'info > n: B and X must be returned untouched', bw[0]['line'] if bw else None)
+    elif v['info'] == 3 and v.get('B.ncol', 2) != 0:
+        so = lf.calls(p + 'gstrs')
+        ex.check(lf, len(so) == 1, 'replaced-pivots-still-solve', sel,
+                 '0 < info <= n only counts the zero pivots that were replaced: the preconditioner solve must still run (PivotGrowth = %s)' % v.get('PivotGrowth'),
+                 None)
 
 
 # ---------------------------------------------------------------- which phases run per Fact (C06.D1)
